@@ -156,13 +156,15 @@ class Taint:
 
 
 def check_copy_in(ctx):
+    from ..dte import Table, inline_helpers
     prog = ctx.prog
     enf = prog.cls(ENF)
     n = 0
-    for m in enf.methods.values():
-        for e in effects_of(m):
-            if not e.path.startswith(SOURCE):
-                continue
+    for m in sorted(enf.methods.values(), key=lambda x: x.qual):
+        effs = [e for e in effects_of(m) if e.path.startswith(SOURCE)]
+        if not effs:
+            continue
+        for e in effs:
             node = e.node
             if e.kind == 'store' and e.path == SOURCE:
                 ok = isinstance(node.value, ast.Dict) and not node.value.keys
@@ -170,38 +172,74 @@ def check_copy_in(ctx):
                        U(node), 'the registry is (re)started empty' if ok
                        else 'the registry of defaults is rebound to '
                        'something other than an empty dict')
-                continue
-            n += 1
-            val = node.value if isinstance(node, ast.Assign) else None
-            ok = False
-            if e.kind == 'substore' and e.path == SOURCE and val is not None:
-                ok = is_copy(prog, m.module, val) and len(val.args) == 1 \
-                    and isinstance(val.args[0], ast.Name) and \
-                    val.args[0].id in m.params
-            ctx.ob('C12.COPY-IN', ok, ctx.where(m.module, node), m.qual,
-                   U(node)[:100],
-                   'a registered default is stored as a deep copy of what '
-                   'the service passed in' if ok else
-                   'a default enters the registry without being deep-copied '
-                   '(shallow copy or the caller\'s own object): loading can '
-                   'then alter the service\'s objects and enforcers sharing '
-                   'them influence one another')
+            elif not (e.kind == 'substore' and e.path == SOURCE):
+                n += 1
+                ctx.ob('C12.COPY-IN', False, ctx.where(m.module, node),
+                       m.qual, U(node)[:100],
+                       'the registry of defaults is changed other than by '
+                       'storing a deep copy under a name')
+        if not any(e.kind == 'substore' and e.path == SOURCE for e in effs):
+            continue
+        t = Table(prog, m, handler_paths=False)
+        seen = set()
+        for p in t.paths:
+            for ev in p.events:
+                if ev.kind != 'store' or not isinstance(
+                        ev.node, ast.Subscript) or U(
+                            ev.node.value) != SOURCE:
+                    continue
+                v = t.expand(ev.value)
+                ok = is_copy(prog, m.module, v) and len(v.args) == 1 \
+                    and isinstance(v.args[0], ast.Name) and \
+                    v.args[0].id in m.params
+                key = (ev.line, ok)
+                if key in seen:
+                    continue
+                seen.add(key)
+                n += 1
+                ctx.ob('C12.COPY-IN', ok, '%s:%d' % (ctx.where(
+                    m.module, m.node).split(':')[0], ev.line), m.qual,
+                    ev.text()[:100],
+                    'a registered default is stored as a deep copy of what '
+                    'the service passed in' if ok else
+                    'a default enters the registry without being deep-copied '
+                    '(shallow copy or the caller\'s own object): loading can '
+                    'then alter the service\'s objects and enforcers sharing '
+                    'them influence one another')
     ctx.floor('C12.COPY-IN', n, 1, 'registry stores')
     rd = prog.func(POLICY + '.RuleDefault.__init__')
-    ok = False
-    node = rd.node
-    for s in ast.walk(rd.node):
-        if isinstance(s, ast.Assign) and any(
-                self_attr(t) and 'deprecated_rule' in self_attr(t)
-                for t in s.targets):
-            node = s
-            ok = any(is_copy(prog, rd.module, c) and len(c.args) == 1 and U(
-                c.args[0]) == 'deprecated_rule' for c in ast.walk(s.value))
-    ctx.ob('C12.COPY-IN', ok, ctx.where(rd.module, node), rd.qual,
-           U(node)[:100] if node is not rd.node else 'deprecated_rule',
-           'the deprecated rule is deep-copied into the default' if ok else
-           'RuleDefault keeps the caller\'s DeprecatedRule object instead '
-           'of a deep copy')
+    t = Table(prog, rd, handler_paths=False)
+    bad = None
+    nst = 0
+    for p in t.paths:
+        for ev in p.events:
+            if ev.kind != 'store' or not (self_attr(ev.node) and
+                                          'deprecated_rule' in
+                                          self_attr(ev.node)):
+                continue
+            nst += 1
+            v = t.expand(ev.value)
+            parts = v.values if isinstance(v, ast.BoolOp) and isinstance(
+                v.op, ast.Or) else [v]
+            for x in parts:
+                if is_copy(prog, rd.module, x) and len(x.args) == 1 and U(
+                        x.args[0]) == 'deprecated_rule':
+                    continue
+                if isinstance(x, (ast.List, ast.Tuple, ast.Dict)) and not (
+                        x.elts if not isinstance(x, ast.Dict) else x.keys):
+                    continue
+                if is_const(x, None):
+                    continue
+                bad = bad or (ev, U(v))
+    ok = bad is None and nst > 0
+    ctx.ob('C12.COPY-IN', ok, '%s:%d' % (ctx.where(
+        rd.module, rd.node).split(':')[0], bad[0].line) if bad
+        else ctx.where(rd.module, rd.node), rd.qual,
+        ('self._deprecated_rule = ' + bad[1])[:100] if bad
+        else 'deprecated_rule',
+        'the deprecated rule is deep-copied into the default' if ok else
+        'RuleDefault keeps the caller\'s DeprecatedRule object instead '
+        'of a deep copy')
 
 
 def check_no_write(ctx):
